@@ -459,9 +459,9 @@ func init() {
 	assume := []string{"sequence numbers come from the enumerated alphabets (all numbers for the closed small configurations; window/word-boundary/edge offsets for large ones)",
 		"wrapping detector: numbers within 1 of the half-space boundary are unconstrained and not probed"}
 	register(&Check{ID: "C04", Seq: func(tier string, shard, shards int, rep *SeqReport) { runRD("C04", tier, shard, shards, rep) },
-		Rule: "explicit-state BFS over Check/accept histories of the real detectors to a fixed point for windows 0..6 x maxima 1..15; for every listed window size (quick: 20 sizes around multiples of 64; thorough: 0..260) and maxima 2^16-1, 2^48-1, 2^64-1 (wrap 2^62-1) every 3-accept history placing a mask bit at every position and shifting it by every distance, plus depth-3/4 BFS over offsets around window edge and 64-bit word boundaries; states merged on a reflective dump of the detector + model",
+		Rule:        "explicit-state BFS over Check/accept histories of the real detectors to a fixed point for windows 0..6 x maxima 1..15; for every listed window size (quick: 20 sizes around multiples of 64; thorough: 0..260) and maxima 2^16-1, 2^48-1, 2^64-1 (wrap 2^62-1) every 3-accept history placing a mask bit at every position and shifting it by every distance, plus depth-3/4 BFS over offsets around window edge and 64-bit word boundaries; states merged on a reflective dump of the detector + model",
 		Assumptions: assume})
 	register(&Check{ID: "C05", Seq: func(tier string, shard, shards int, rep *SeqReport) { runRD("C05", tier, shard, shards, rep) },
-		Rule: "same enumeration as C04 restricted to the configurations C05 quantifies over; every Check result and every accept() result is compared with the sliding-window reference model, check-only operations must not change later answers",
+		Rule:        "same enumeration as C04 restricted to the configurations C05 quantifies over; every Check result and every accept() result is compared with the sliding-window reference model, check-only operations must not change later answers",
 		Assumptions: assume})
 }
